@@ -1871,6 +1871,17 @@ where
                             if ann.node == *remote {
                                 continue;
                             }
+                            // Don't send refs announcements of local repositories the remote
+                            // is not allowed to see.
+                            if let AnnouncementMessage::Refs(RefsAnnouncement { rid, .. }) =
+                                &ann.message
+                            {
+                                if let Ok(Some(doc)) = self.storage.get(*rid) {
+                                    if !doc.is_visible_to(&(*remote).into()) {
+                                        continue;
+                                    }
+                                }
+                            }
                             // Only send messages if we're a relay, or it's our own messages.
                             if relay || ann.node == local {
                                 self.outbox.write(peer, ann.into());
